@@ -14,7 +14,7 @@ func init() {
 	propFuncs["C07"] = propC07
 	propInfos["C07"] = &PropInfo{
 		Level:   "other",
-		Explain: "Structural necessary conditions decided statically (DESIGN.md §5 C07): C-dispatch — InvCDF (Rand) first asserts dist to an interface with exactly InvCDF(float64) float64 (Rand(*rand.Rand) float64) and on the ok edge returns the bound method of the asserted value and nothing else; the generic quantile closure's loop-free decision list (NaN outside [0,1]; at 0 the lower Bounds() end when CDF is exactly 0 there else -inf; at 1 the upper end / +inf); the bisection is called with the predicate x -> dist.CDF(x) < y for the same dist and y and the bracket found, and the closure returns RESULT 1 of bisectBool (the upper end: smallest x with CDF(x) >= y); early returns at infinite brackets; bisectBool's midpoint, update and termination tests as a system of recurrences; the generic Rand closure re-draws while y==0, draws from r unless r==nil, and returns InvCDF(dist)(y) for the same dist; engine A: dist is never written.",
+		Explain: "Structural necessary conditions decided statically (DESIGN.md §5 C07): C-dispatch — InvCDF (Rand) first asserts dist to an interface with exactly InvCDF(float64) float64 (Rand(*rand.Rand) float64) and on the ok edge returns the bound method of the asserted value and nothing else; the generic quantile closure's loop-free decision list (NaN outside [0,1]; at 0 the lower Bounds() end when CDF is exactly 0 there else -inf; at 1 the upper end / +inf); the bisection is called with the predicate x -> dist.CDF(x) < y for the same dist and y and the bracket found, and the closure returns RESULT 1 of bisectBool (the upper end: smallest x with CDF(x) >= y); early returns at infinite brackets; bisectBool's midpoint, update and termination tests as a system of recurrences; the generic Rand closure re-draws while y==0, draws from r unless r==nil, and returns InvCDF(dist)(y) for the same dist; engine A: dist is never written. Added after the mutation sweep (DESIGN §13): the bracket expansion — from 0 one end moves by a geometrically growing positive step, up while CDF(hi) < y, down while y <= CDF(lo), while finite, direction by CDF(0) < y, the other end following.",
 		Assume:  []string{"A2 user CDFs are pure", "A4"},
 		Undec:   []string{"that the bracket expansion finds a bracket for every CDF", "1e-9 accuracy, monotonicity in y", "distributional correctness of Rand"},
 	}
